@@ -107,6 +107,26 @@ func (p *RunnableProcessor) Process(ctx context.Context, records []opencdc.Recor
 					sdk.ErrorRecord{Error: cerrors.New("processor returned more records than input")},
 				}
 			}
+			if len(outRecs) < len(keptRecords) {
+				// The processor returned fewer results than it was given, i.e. it
+				// only processed the first len(outRecs) kept records. Merge only
+				// the passthrough records that come before the first unprocessed
+				// kept record: the result then stays aligned with the input and
+				// ends where the processor stopped (the caller retries or rejects
+				// the rest, as it does for a processor without a condition).
+				// A condition error belongs to an even later record, drop it too.
+				cutoff := firstUnprocessedIndex(
+					len(keptRecords)+len(passthroughRecordIndexes),
+					passthroughRecordIndexes,
+					len(outRecs),
+				)
+				for len(passthroughRecordIndexes) > 0 &&
+					passthroughRecordIndexes[len(passthroughRecordIndexes)-1] >= cutoff {
+					passthroughRecordIndexes = passthroughRecordIndexes[:len(passthroughRecordIndexes)-1]
+				}
+				records = records[:cutoff]
+				err = nil
+			}
 		}
 		if err != nil {
 			outRecs = append(outRecs, sdk.ErrorRecord{Error: err})
@@ -124,8 +144,6 @@ func (p *RunnableProcessor) Process(ctx context.Context, records []opencdc.Recor
 			tmp := make([]sdk.ProcessedRecord, len(outRecs)+len(passthroughRecordIndexes))
 			prevIndex := -1
 			for i, index := range passthroughRecordIndexes {
-				// TODO index-i can be out of bounds if the processor returns
-				//  fewer records than the input.
 				copy(tmp[prevIndex+1:index], outRecs[prevIndex-i+1:index-i])
 				tmp[index] = sdk.SingleRecord(records[index])
 				prevIndex = index
@@ -148,6 +166,24 @@ func (p *RunnableProcessor) Process(ctx context.Context, records []opencdc.Recor
 	p.outInsp.Send(ctx, inspectorRecs)
 
 	return outRecs
+}
+
+// firstUnprocessedIndex returns the index (among the first n input records)
+// of the kept record that follows the first processed kept records, given the
+// sorted indexes of the records that were not kept.
+func firstUnprocessedIndex(n int, passthroughIndexes []int, processed int) int {
+	kept, p := 0, 0
+	for i := 0; i < n; i++ {
+		if p < len(passthroughIndexes) && passthroughIndexes[p] == i {
+			p++
+			continue
+		}
+		if kept == processed {
+			return i
+		}
+		kept++
+	}
+	return n
 }
 
 func (p *RunnableProcessor) Teardown(ctx context.Context) error {
